@@ -579,14 +579,14 @@ def _bonds_from_ks(mat):
     return sorted(set((int(d), int(a)) for a, d in zip(coo.row, coo.col)))
 
 
-def _check_traj(L, label, vkind, tr, st, records, frames_independent=True):
+def _check_traj(L, label, vkind, tr, st, records, frames_independent=True, layer="e2e"):
     """All end-to-end assertions on one trajectory."""
     import mdtraj as md
 
     def viol(sig, detail):
         st["violations"] += 1
         if len(records) < 30:
-            records.append((sig, "%s: %s" % (label, detail), {"kind": "e2e", "label": label}))
+            records.append((sig, "%s: %s" % (label, detail), {"kind": layer, "label": label}))
 
     top = tr.topology
     nco, ca, pro, chain, complete = _arrays(top)
@@ -597,23 +597,23 @@ def _check_traj(L, label, vkind, tr, st, records, frames_independent=True):
     ks = md.kabsch_sander(tr)
     st["trajectories"] += 1
     if full.shape != (F, n) or simp.shape != (F, n):
-        viol("e2e|shape", "shape %s / %s, expected %s" % (full.shape, simp.shape, (F, n)))
+        viol(layer + "|shape", "shape %s / %s, expected %s" % (full.shape, simp.shape, (F, n)))
         return
     # 'NA' exactly on incomplete residues
     na = (full == "NA")
     if not np.array_equal(na, np.broadcast_to(~complete, (F, n))) or not np.array_equal(simp == "NA", na):
-        viol("e2e|NA-mask", "'NA' positions differ from the residues lacking N/CA/C/O: frame/res %s"
+        viol(layer + "|NA-mask", "'NA' positions differ from the residues lacking N/CA/C/O: frame/res %s"
              % (np.argwhere(na != ~complete[None, :])[:5].tolist()))
     # simplified image
     img = np.array([["NA" if c == "NA" else R.SIMPLIFIED.get(str(c), "?") for c in row] for row in full],
                    dtype="U2").reshape(F, n)
     if not np.array_equal(img, simp):
         w = np.argwhere(img != simp)[:5]
-        viol("e2e|simplified-image", "simplified != image of full at %s: full %s simp %s" % (
+        viol(layer + "|simplified-image", "simplified != image of full at %s: full %s simp %s" % (
             w.tolist(), [full[tuple(x)] for x in w], [simp[tuple(x)] for x in w]))
     alphabet = set(np.unique(full).tolist())
     if not alphabet <= set("HBEGITS ") | {"NA"}:
-        viol("e2e|alphabet", "codes %s" % sorted(alphabet))
+        viol(layer + "|alphabet", "codes %s" % sorted(alphabet))
     missing = frozenset(int(i) for i in np.nonzero(~complete)[0])
     xyz = np.ascontiguousarray(tr.xyz, dtype=np.float32)
     cl = chain.tolist()
@@ -624,7 +624,7 @@ def _check_traj(L, label, vkind, tr, st, records, frames_independent=True):
         st["residues"] += n
         st["hbonds"] += len(bonds)
         if any(d in missing or a in missing for d, a in bonds):
-            viol("e2e|incomplete-residue-in-hbond", "kabsch_sander reports a bond of an incomplete residue")
+            viol(layer + "|incomplete-residue-in-hbond", "kabsch_sander reports a bond of an incomplete residue")
         # the pattern dssp() uses == the pattern kabsch_sander reports
         hbo = np.full((n, 2), -1, dtype=np.int32)
         heo = np.empty((n, 2), dtype=np.float32)
@@ -632,7 +632,7 @@ def _check_traj(L, label, vkind, tr, st, records, frames_independent=True):
             L.dsspseam_hbonds(_p(xyz[f]), _p(nco), _p(ca), _p(pro), xyz.shape[1], n, _p(hbo), _p(heo))
         inner = sorted((int(d), int(a)) for d in range(n) for a in hbo[d] if a >= 0)
         if L is not None and inner != bonds:
-            viol("e2e|pattern-inside-dssp-differs-from-kabsch_sander",
+            viol(layer + "|pattern-inside-dssp-differs-from-kabsch_sander",
                  "bonds only in dssp(): %s, only in kabsch_sander: %s" % (sorted(set(inner) - set(bonds))[:5],
                                                                           sorted(set(bonds) - set(inner))[:5]))
         cax = xyz[f][caz].astype(np.float64)
@@ -667,7 +667,7 @@ def _check_traj(L, label, vkind, tr, st, records, frames_independent=True):
             elif kind:
                 st["alt_used"][kind] = st["alt_used"].get(kind, 0) + 1
             else:
-                sig = "e2e|full-vs-reference|exp=%s|got=%s|%s" % (_letters(exp[i] for i in bad),
+                sig = layer + "|full-vs-reference|exp=%s|got=%s|%s" % (_letters(exp[i] for i in bad),
                                                                     _letters(got[i] for i in bad), _cls(b0, n, bonds))
                 lo, hi = max(0, bad[0] - 6), min(n, bad[0] + 7)
                 viol(sig, "frame %d residues %s: compute_dssp %r, reference %r (window %d..%d)" % (
@@ -682,7 +682,7 @@ def _check_traj(L, label, vkind, tr, st, records, frames_independent=True):
         for f in sorted(set([0, F // 2, F - 1])):
             one = md.compute_dssp(tr[f], simplified=False)
             if not np.array_equal(one[0], full[f]):
-                viol("e2e|frame-independence", "compute_dssp(traj)[%d] != compute_dssp(traj[%d])" % (f, f))
+                viol(layer + "|frame-independence", "compute_dssp(traj)[%d] != compute_dssp(traj[%d])" % (f, f))
     # dssp() on independently prepared arrays == compute_dssp
     if L is None:
         return
@@ -692,7 +692,7 @@ def _check_traj(L, label, vkind, tr, st, records, frames_independent=True):
     want = np.where(complete[None, :], raw, WILD)
     have = np.array([[ord(c) if c != "NA" else WILD for c in row] for row in full], dtype=np.uint8).reshape(F, n)
     if not np.array_equal(want, have):
-        viol("e2e|wrapper-vs-dssp()", "compute_dssp differs from dssp() called on independently prepared arrays")
+        viol(layer + "|wrapper-vs-dssp()", "compute_dssp differs from dssp() called on independently prepared arrays")
 
 
 def _e2e_file(item):
@@ -789,9 +789,105 @@ def _e2e_file(item):
     return ("e2e", fname, None, st, None, records)
 
 
+# ================================================================================================
+# layer 3: histories of in-place topology edits in one process
+# ================================================================================================
+HIST_FILES = ["1vii.pdb", "1bpi.pdb", "2EQQ.pdb"]
+RENAMES = [("O", "OX"), ("N", "NX"), ("CA", "CX"), ("C", "CX"), ("O", "OT1")]
+
+
+def _history_file(item):
+    """Histories [analyse; rename ONE backbone atom of residue r in place; analyse; analyse a copy of the topology;
+    rename back; analyse; analyse a copy] and the repair direction [first analysis with the atom already misnamed;
+    rename it to the backbone name in place; analyse; analyse a copy].  Every analysis is the full end-to-end
+    assertion set of _check_traj (compute_dssp simplified False/True, kabsch_sander), whose reference reads the atom
+    names of the topology at that moment (_arrays) and shares nothing with mdtraj."""
+    fname, quick, seed, repo = item
+    import mdtraj as md
+    import warnings
+    warnings.simplefilter("ignore")
+    L = _lib(repo)
+    st = {"file": "history:" + fname, "violations": 0, "trajectories": 0, "frames": 0, "residues": 0, "hbonds": 0,
+          "compared_residues": 0, "excluded_near_threshold": 0, "min_kappa_dist_deg": 1e9, "flag_hist": {},
+          "alt_used": {}, "dropped_linkorder": 0, "nontrivial_frames": 0, "outputs": set(), "letters": {}, "variants": [],
+          "mkdssp_frames": 0, "mkdssp_residues": 0, "mkdssp_differ": 0, "histories": 0, "history_steps": 0,
+          "na_transitions": 0}
+    records = []
+    t0 = md.load(os.path.join(repo, "tests/data", fname))[:1]
+    pert = _perturbed(t0.xyz[0], seed)
+    xyz = np.concatenate([t0.xyz[:1], pert[6:7]])
+    nco, ca, pro, chain, complete = _arrays(t0.topology)
+    prot = [int(i) for i in np.nonzero(complete)[0]]
+    codes = md.compute_dssp(t0, simplified=False)[0]
+
+    def mid_of(letter):
+        idx = [i for i in prot if codes[i] == letter]
+        return idx[len(idx) // 2] if idx else None
+
+    targets = []
+    for k in [mid_of("H"), mid_of("E"), prot[0], prot[-1], mid_of("T"), mid_of("G"), prot[1], prot[-2], mid_of("B")]:
+        if k is not None and k not in targets:
+            targets.append(k)
+    if quick:
+        targets = targets[:4]
+
+    def fresh():
+        return md.Trajectory(xyz.copy(), t0.topology.copy())
+
+    def atom_of(tr, r, name):
+        for a in tr.topology.residue(r).atoms:
+            if a.name == name:
+                return a
+        return None
+
+    def step(tag, tr, r, expect_complete):
+        st["history_steps"] += 1
+        st["variants"].append(tag)
+        before = st["violations"]
+        _check_traj(L, "history:%s/%s" % (fname, tag), "history", tr, st, records, frames_independent=False, layer="hist")
+        # the residue's own completeness, read from the names right now, must be what the history says
+        now = all(atom_of(tr, r, nm) is not None for nm in BB)
+        assert now == expect_complete, "history harness error"
+        return st["violations"] - before
+
+    for r in targets:
+        for old, new in RENAMES:
+            if new == "OT1" and r != prot[-1]:
+                continue
+            # A: analyse, break in place, analyse, copy, repair in place, analyse, copy
+            tr = fresh()
+            a = atom_of(tr, r, old)
+            if a is None:
+                continue
+            st["histories"] += 2
+            tag = "r%d:%s->%s" % (r, old, new)
+            step(tag + "/0-orig", tr, r, True)
+            a.name = new
+            step(tag + "/1-renamed-in-place", tr, r, False)
+            step(tag + "/2-copy-of-renamed", md.Trajectory(xyz.copy(), tr.topology.copy()), r, False)
+            a.name = old
+            step(tag + "/3-restored-in-place", tr, r, True)
+            step(tag + "/4-copy-of-restored", md.Trajectory(xyz.copy(), tr.topology.copy()), r, True)
+            st["na_transitions"] += 2
+            # B: repair direction: the FIRST analysis sees the misnamed atom
+            tr = fresh()
+            a = atom_of(tr, r, old)
+            a.name = new
+            step(tag + "/B0-misnamed-first", tr, r, False)
+            a.name = old
+            step(tag + "/B1-repaired-in-place", tr, r, True)
+            step(tag + "/B2-copy-of-repaired", md.Trajectory(xyz.copy(), tr.topology.copy()), r, True)
+            st["na_transitions"] += 1
+    if st["min_kappa_dist_deg"] > 1e8:
+        st["min_kappa_dist_deg"] = None
+    return ("e2e", "history:" + fname, None, st, None, records)
+
+
 def _work(item):
     if item[0] == "e2e":
         return _e2e_file(item[1:])
+    if item[0] == "hist":
+        return _history_file(item[1:])
     return _rules_chunk(item[1:])
 
 
@@ -808,6 +904,9 @@ def run(ctx):
     for f in FILES + sorted(SYNTH):
         if f in SYNTH or os.path.exists(os.path.join(ctx.repo, "tests/data", f)):
             items.append(("e2e", f, quick, ctx.seed, ctx.repo))
+    for f in HIST_FILES:
+        if os.path.exists(os.path.join(ctx.repo, "tests/data", f)):
+            items.append(("hist", f, quick, ctx.seed, ctx.repo))
     n_e2e_items = len(items)
     spaces = {}
     K = 3 if quick else 4
@@ -968,10 +1067,13 @@ def replay(ctx, rep):
                     ok = True
         print("seam      %r\nreference %r" % (obs[0], exps[0]))
         return ok
-    # end to end: re-run the file the label names
+    # end to end / history: re-run the file the label names
     fname = rep["label"].split("/")[0]
-    a = _e2e_file((fname, ctx.quick, ctx.seed, ctx.repo))
-    b = _e2e_file((fname, ctx.quick, ctx.seed, ctx.repo))
+    fn = _e2e_file
+    if fname.startswith("history:"):
+        fname, fn = fname[len("history:"):], _history_file
+    a = fn((fname, ctx.quick, ctx.seed, ctx.repo))
+    b = fn((fname, ctx.quick, ctx.seed, ctx.repo))
     la = sorted(r[1] for r in a[5])
     lb = sorted(r[1] for r in b[5])
     assert la == lb, "replay is not deterministic"
